@@ -28,10 +28,16 @@ fn entry_text() -> BoxedStrategy<String> {
 
 /// a malformed entry: C08 fault or an invalid UTF-8 byte; never an empty line inside
 fn bad_entry() -> BoxedStrategy<Vec<u8>> {
-    (entry_text(), 0u8..9, any::<u16>())
+    (entry_text(), 0u8..11, any::<u16>())
         .prop_map(|(good, kind, sel)| {
             let mut lines: Vec<String> = good.lines().map(String::from).collect();
             match kind {
+                // (9, 10: a long line without '=', multi-byte characters spread over its second half)
+                9 | 10 => {
+                    let n = 120 + (sel as usize % 200);
+                    let ch = ["é", "日", "💖"][(sel % 3) as usize];
+                    lines.insert(idx(sel, lines.len() + 1), format!("{}{}", "x".repeat(n), ch.repeat(40)));
+                }
                 0 => lines.insert(idx(sel, lines.len() + 1), "no equals sign".into()),
                 1 => lines.insert(idx(sel, lines.len() + 1), "PKG_NAME=x".into()),
                 2 => lines.insert(idx(sel, lines.len() + 1), "FILE_SIZE=12a".into()),
@@ -40,7 +46,9 @@ fn bad_entry() -> BoxedStrategy<Vec<u8>> {
                 _ => {}
             }
             let mut bytes = (lines.join("\n") + "\n").into_bytes();
-            if kind >= 7 {
+            if kind >= 9 {
+                // (nothing more to do)
+            } else if kind >= 7 {
                 // a truncated multi-byte sequence as the very last bytes of the entry
                 let tail: &[u8] = [&b"\xc3"[..], b"\xe2\x82", b"\xf0\x9f\x92"][(sel % 3) as usize];
                 let at = bytes.len() - 1;
